@@ -31,6 +31,9 @@ type Scenario struct {
 	Clients   []Client   `json:"clients,omitempty"`
 
 	StoreFaults []StoreFault `json:"store_faults,omitempty"`
+	UpFaults    []UpFault    `json:"up_faults,omitempty"`
+	Checkpoints []int        `json:"checkpoints,omitempty"` // record the store footprint after this many exchanges
+	FinalPurge  bool         `json:"final_purge,omitempty"` // the run ends with an unsafe request to every URI
 	DiskFaults  []DiskFault  `json:"disk_faults,omitempty"`
 
 	// ssim only
@@ -110,6 +113,14 @@ type StoreFault struct {
 	Arg    int    `json:"arg,omitempty"`
 }
 
+// UpFault overrides the scripted behaviour of the Nth upstream call of the run.
+type UpFault struct {
+	Nth    int    `json:"nth"`
+	Fault  string `json:"fault"` // "err" | "hang" | "reset" | "eof" | "status"
+	At     int    `json:"at,omitempty"`
+	Status int    `json:"status,omitempty"`
+}
+
 // DiskFault addresses the Nth simulated disk call of a kind.
 type DiskFault struct {
 	OpKind string `json:"op"`  // "write" "sync" "open" "create" "read" "rename" "remove" "mkdir" "readdir" "close" "any"
@@ -126,7 +137,9 @@ type SClient struct {
 }
 
 type SOp struct {
-	Kind   string `json:"kind"` // set get delete keys reopen api-get api-delete api-list mutate-after-set mutate-got
+	Kind   string `json:"kind"` // set get delete keys reopen api-get api-delete api-list set-mutate get-mutate set-same corrupt rekey open-badkey
+	Arg    int    `json:"arg,omitempty"`
+	Mode   string `json:"mode,omitempty"`
 	Key    int    `json:"key"`  // index into Scenario.Keys
 	ValLen int    `json:"val_len,omitempty"`
 	Class  int    `json:"class,omitempty"`
